@@ -6,25 +6,33 @@ For each seed: (1) the targeted harnesses expected to catch it, with triage (cou
 (2) optionally (--quick) the property's quick check through the official interface."""
 import glob, json, os, re, subprocess, sys, time
 VERIF = os.path.dirname(os.path.dirname(os.path.abspath(__file__)))
-EXPECT = {
- "C01": ["w2_server_login_start_unregistered_ids_ctx"],
- "C02": ["s6_pwd_too_long"],
- "C03": ["c03_server_finish_exact"],
- "C04": ["s10w_generate_ke3_ctx0_default_ids"],
- "C05": ["s12_identifiers_defaulting"],
- "C06": ["s9_open_raw_exact"],
- "C08": ["w2_server_login_start_unregistered"],
- "C09": ["s12_identifiers_defaulting"],
- "C10": ["d_server_login"],
- "C11": ["g4_ristretto_sk_boundaries"],
- "C12": ["s12_identifiers_defaulting"],
- "C13": ["d_setup"],
- "C14": ["s7_oprf_key_from_seed_long_cred"],
- "C15": ["s6_pwd_key_len3"],
- "C16": ["s9w_seal_client_only"],
- "C17": ["s5_server_setup_new"],
- "C18": ["w2_server_login_start_external_key"],
- "C19": ["g4_ristretto_sk_boundaries"],
+EXPECT = {  # seed directory -> harnesses expected to catch it
+ "C01-server-drops-empty-identity": ["w2_server_login_start_unregistered_ids_ctx"],
+ "C02-password-truncation-65533": ["s6_pwd_too_long"],
+ "C02-login-password-trailing-whitespace-trimmed": ["s3_client_login_start_pw2", "w3_client_login_finish_default_ids"],
+ "C03-client-mac-truncated-verify": ["c03_server_finish_exact"],
+ "C04-server-mac-truncated-verify": ["s10w_generate_ke3_ctx0_default_ids"],
+ "C05-empty-identity-as-absent": ["s12_identifiers_defaulting"],
+ "C05-prefix-high-byte-cleared": ["s12_input_from_all_lengths"],
+ "C06-envelope-tag-not-verified": ["s9_open_raw_exact"],
+ "C06-update-iter-buffer-drops-long-piece": ["s12_mac_update_iter_long"],
+ "C08-blank-state-for-unregistered": ["w2_server_login_start_unregistered"],
+ "C09-server-identity-dropped-when-client-absent": ["s12_identifiers_defaulting"],
+ "C09-extract-ikm-order-swapped": ["s6_pwd_key_len3"],
+ "C10-ke2state-chunks-exact-ignores-remainder": ["d_server_login"],
+ "C10-envelope-optional-mode-byte": ["d_reg_upload"],
+ "C11-ristretto-sk-reduced-mod-order": ["g4_ristretto_sk_boundaries"],
+ "C11-x25519-small-order-bytewise-filter": ["g2_x25519_pk_small_order"],
+ "C12-overlong-identity-swallowed": ["s12_identifiers_defaulting"],
+ "C13-setup-serialize-duplicates-static-key": ["d_setup"],
+ "C14-credential-id-truncated-in-oprf-key": ["s7_oprf_key_from_seed_long_cred"],
+ "C15-skip-default-ksf": ["s6_pwd_key_len3"],
+ "C15-login-ignores-ksf-parameter": ["w3_client_login_finish_default_ids"],
+ "C16-deterministic-envelope-nonce-one-identity": ["s9w_seal_client_only"],
+ "C17-fake-keypair-is-static-keypair": ["s5_server_setup_new"],
+ "C17-ke1-nonce-overlaps-key-seed": ["s3_client_login_start_pw2"],
+ "C18-swallow-public-key-error": ["w2_server_login_start_external_key"],
+ "C19-ristretto-sk-252-bit-assumption": ["g4_ristretto_sk_boundaries"],
 }
 def sh(cmd, **kw):
     return subprocess.run(cmd, shell=True, stdout=subprocess.PIPE, stderr=subprocess.STDOUT, text=True, **kw)
@@ -41,7 +49,7 @@ for d in sorted(glob.glob(os.path.join(VERIF, "seeded", "C*-*"))):
     r = sh("git -C /repo apply %s" % patch)
     if r.returncode != 0:
         matrix[name] = {"error": "patch does not apply: " + r.stdout[-300:]}; continue
-    rec = {"property": pid, "expected": EXPECT.get(pid, [])}
+    rec = {"property": pid, "expected": EXPECT.get(name, [])}
     try:
         t0 = time.time()
         r = sh("%s/bin/check --harness %s --triage" % (VERIF, " ".join(rec["expected"])), cwd=VERIF)
